@@ -15,6 +15,12 @@ from vf import known, util
 
 EXCL = {}
 
+# Program-level finding ids by how they manifest.  Engines pick the groups that can
+# affect their oracle; a new finding added here reaches every engine at once.
+RAISES = ("KF-layout-drift-over-shuffle", "KF-minmax-empty", "KF-setitem-int-with-negstep")  # graph build / compute raises (minmax-empty also: wrong block shape)
+VALUES = ("KF-pad-wide", "KF-tensordot-int-dtype", "KF-argext-ties-axis-none")  # computes, but differs from NumPy
+ALL = RAISES + VALUES
+
 
 def excl(fid):
     def deco(fn):
